@@ -41,6 +41,7 @@ ASSUMPTIONS = [
     "seeded search: a clean batch is evidence, not proof",
 ]
 FAULT_KINDS = ["same_name_other_instance", "fea_do_log_h",
+               "caller_reuses_matrix_buffer", "derived_instance_object",
                "create_returns_garbage", "algorithm_object_reused", "warm_start:full", "warm_start:wrapper", "via:for_fes",
                "via:from_starting_point",
                "cancel:before_first_move", "cancel:mid_run", "draw:i0",
@@ -206,6 +207,16 @@ def _generate(rng: random.Random, batch: dict) -> dict:
             n = max(n, 4)
         inst = {"matrix": gen_matrix(rng, n, algo == "fea")}
     doc = {"algo": algo, "inst": inst, "mode": mode}
+    if "matrix" in inst and not batch.get("long") and rng.random() < 0.08:
+        # what the caller does with its own objects around the constructor
+        r = rng.random()
+        if r < 0.6:
+            inst["caller"] = {"src": rng.choice(["auto", "auto", "int64",
+                                                 "int32", "fortran"]),
+                              "reuse": rng.choice(["scale", "zero"])}
+        else:
+            inst["caller"] = {"derive": rng.choice(["scaled", "edited",
+                                                    "copy"])}
     if algo == "fea" and rng.random() < 0.3:
         doc["do_log_h"] = True
     if mode == "stub" and rng.random() < 0.2:
@@ -320,7 +331,36 @@ def _build(doc, name: str = "sim"):
         matrix = [[int(v) for v in row] for row in np.asarray(inst)]
     else:
         matrix = [[int(v) for v in row] for row in inst_doc["matrix"]]
+        caller = inst_doc.get("caller") or {}
         inst = Instance(name, 0, np.array(matrix, dtype=np.int64))
+        if "src" in caller:
+            # the caller hands over a buffer of its own (possibly already of
+            # the type and layout the instance stores) and re-uses it later
+            dt = {"auto": inst.dtype, "int64": np.int64,
+                  "int32": np.int32, "fortran": inst.dtype}[caller["src"]]
+            if max(max(r) for r in matrix) > np.iinfo(dt).max:
+                dt = np.int64
+            src = np.array(matrix, dtype=dt,
+                           order="F" if caller["src"] == "fortran" else "C")
+            inst = Instance(name, 0, src)
+            if caller["reuse"] == "scale":
+                src *= 3
+            else:
+                src.fill(0)
+        elif "derive" in caller and len(matrix) >= 2:
+            # objects numpy derives from an instance are of type Instance,
+            # too; whatever the algorithms accept must satisfy the property
+            # for the distances that object really holds
+            if caller["derive"] == "scaled":
+                inst = inst * 3
+            elif caller["derive"] == "edited":
+                inst = inst.copy()
+                big = 5 * int(max(max(r) for r in matrix)) + 7
+                inst[0, 1] = inst[1, 0] = min(big, int(
+                    np.iinfo(inst.dtype).max))
+            else:
+                inst = inst.copy()
+            matrix = [[int(v) for v in row] for row in np.asarray(inst)]
     return inst, matrix
 
 
@@ -417,6 +457,21 @@ def _execute_single(doc: dict, shared: dict) -> dict:
     core.bump(res["probes"], f"algo:{algo_name}")
     if "resource" in doc["inst"]:
         core.bump(res["probes"], "shipped_instance")
+    caller = doc["inst"].get("caller") or {}
+    if "src" in caller:
+        core.bump(res["faults"], "caller_reuses_matrix_buffer")
+    if "derive" in caller:
+        core.bump(res["faults"], "derived_instance_object")
+        try:
+            int(inst.tour_length_upper_bound), int(inst.n_cities)
+            str(inst)
+            (TSPFEA1p1revn if is_fea else TSPEA1p1revn)(inst)
+        except (AttributeError, TypeError, ValueError):
+            # refused: such an object is not an instance for the algorithms
+            core.bump(res["probes"], "derived_object_refused")
+            res["events"].append(["derived-refused"])
+            return res
+        core.bump(res["probes"], "derived_object_accepted")
     if int(inst.tour_length_upper_bound) != ub or \
             int(inst.n_cities) != n:
         # C05 territory, but the FEA table clause depends on it
